@@ -1364,3 +1364,83 @@ Proof.
   cbv zeta. split; [vm_compute; reflexivity|].
   intros [|]; (split; [vm_compute; reflexivity|]; split; [eexists; vm_compute; reflexivity|]; eexists; vm_compute; repeat split).
 Qed.
+
+(* ---------- transformations under a status subresource: complete when the ops stay on one side of the split ---------- *)
+Lemma po_filter_all {A} (p : A -> bool) l : filter p l = [] -> filter (fun x => negb (p x)) l = l.
+Proof.
+  induction l as [|x l IH]; simpl; intros H; [reflexivity|]. destruct (p x); [discriminate|]. simpl. f_equal. apply IH. exact H.
+Qed.
+Lemma po_filter_none {A} (p : A -> bool) l : filter (fun x => negb (p x)) l = [] -> filter p l = l.
+Proof.
+  induction l as [|x l IH]; simpl; intros H; [reflexivity|]. destruct (p x); simpl in *; [f_equal; apply IH; exact H | discriminate].
+Qed.
+
+Section CompleteSubFns.
+  Variable rvs : nat -> json.
+  Variable slip : nat.
+  Variable foreign : option json -> option json.
+  Variable diff : json -> json -> list jop.
+  Hypothesis rvs_refl : forall n, jeqb (rvs n) (rvs n) = true.
+  Hypothesis diff_law : forall a b, apply_ops (diff a b) a = Some b.
+  Notation wserve := (po_wserve rvs (fun _ c => c) true slip foreign).
+
+  (* transformations only, status subresource, plain server, nobody else writes, and all the ops of from_diff lie on ONE side of
+     the /status split: the one JSON batch carries the whole diff, the server computes the full result [to_be] and persists the
+     addressed side of it *)
+  Theorem po_complete_sub_fns fns b0 c0 to_be :
+    slip <> 0 ->
+    let obj0 := po_stamp (rvs c0) b0 in
+    po_run_fns fns obj0 = Ok to_be -> fns <> [] ->
+    let ops := diff obj0 to_be in
+    po_status_ops true ops = [] \/ po_body_ops true ops = [] ->
+    let r := patch_obj po_world wserve diff true [] fns (Some obj0) (mkW (Some obj0) c0 0 []) in
+    let final := match ops with
+                 | [] => obj0
+                 | _ => match po_status_ops true ops with
+                        | [] => po_stamp (rvs (Datatypes.S c0)) (po_with_status (po_status_of obj0) to_be)    (* main URL *)
+                        | _ => po_stamp (rvs (Datatypes.S c0)) (po_with_status (po_status_of to_be) obj0)     (* /status *)
+                        end
+                 end in
+    w_obj (r_srv r) = Some final /\ (exists b, r_out r = Returned b None) /\ po_all_ok (r_log r) = true.
+  Proof.
+    intros Hs0 obj0 Hrun Hfns ops Hside. cbv zeta.
+    assert (E0 : Nat.eqb 0 slip = false) by (apply Nat.eqb_neq; congruence).
+    match goal with |- w_obj (r_srv ?r) = Some ?f /\ _ =>
+      cut (exists b log w, r = mkRes (Returned b None) log w /\ w_obj w = Some f /\ po_all_ok log = true);
+      [intros (b & log & w & -> & Hw & Hl); split; [exact Hw|]; split; [exists b; reflexivity | exact Hl]|]
+    end.
+    unfold patch_obj. cbn [po_split lookup del]. unfold po_merge_status, po_json_phase. cbn [a_patched a_srv a_log]. unfold po_fresh.
+    destruct (po_stamp_shape (rvs c0) b0) as (kvs & m & Hshape & _). fold obj0 in Hshape.
+    unfold po_as_json_patch. rewrite Hshape. rewrite <- Hshape.
+    destruct fns as [|f fns']; [contradiction|]. rewrite Hrun. cbn [bind]. fold ops.
+    assert (Hrv : po_rv_of (Some obj0) = Ok (rvs c0)) by apply po_stamp_rv_of.
+    assert (Hget : jp_get obj0 ["metadata"; "resourceVersion"] = Some (rvs c0)) by apply po_stamp_get.
+    destruct ops as [|o l] eqn:Eops.
+    - cbn. eexists _, _, _. split; [reflexivity|]. split; reflexivity.
+    - destruct Hside as [Hst|Hbo].
+      + (* everything goes to the main URL *)
+        assert (Hb : po_body_ops true (o :: l) = o :: l) by (unfold po_body_ops; apply po_filter_all; exact Hst).
+        rewrite Hb, Hst, Hrv. unfold po_call. cbn [a_srv a_log a_patched]. unfold po_wserve at 1. cbn [w_seen w_obj w_ctr w_hist].
+        rewrite E0. cbn [w_obj po_candidate rq_payload po_json_req rq_url po_pick w_ctr w_seen w_hist].
+        rewrite (po_test_pass _ (rvs c0)); [|exact Hget | apply rvs_refl].
+        rewrite <- Eops. unfold ops. rewrite diff_law.
+        cbn [po_json_status po_finish a_patched a_log a_srv]. eexists _, _, _. split; [reflexivity|]. split; reflexivity.
+      + (* everything goes to /status *)
+        assert (Hs : po_status_ops true (o :: l) = o :: l) by (unfold po_status_ops; apply po_filter_none; exact Hbo).
+        rewrite Hbo, Hs. unfold po_json_status. rewrite Hrv. unfold po_call. cbn [a_srv a_log a_patched]. unfold po_wserve at 1.
+        cbn [w_seen w_obj w_ctr w_hist]. rewrite E0. cbn [w_obj po_candidate rq_payload po_json_req rq_url po_pick w_ctr w_seen w_hist].
+        rewrite (po_test_pass _ (rvs c0)); [|exact Hget | apply rvs_refl].
+        rewrite <- Eops. unfold ops. rewrite diff_law.
+        cbn [po_finish a_patched a_log a_srv]. eexists _, _, _. split; [reflexivity|]. split; reflexivity.
+  Qed.
+End CompleteSubFns.
+
+(* a one-sided instance: the hypotheses of po_complete_sub_fns are satisfiable (a status edit only) *)
+Example po_ex_one_sided :
+  let obj0 := po_stamp (po_ex_rvs 0) (po_ex_obj "uid-1") in
+  let fns := [mkFn 1 (po_fn_set2 "status" "y" (JNum 2))] in
+  let diff := fun (a b : json) => [OReplace "" b] in
+  exists to_be, po_run_fns fns obj0 = Ok to_be /\ fns <> [] /\ diff obj0 to_be <> [] /\
+                po_body_ops true [OAdd "/status" (JObj [("y", JNum 2)])] = [] /\
+                po_status_ops true [OAdd "/metadata/finalizers" (JList [JStr "fin"])] = [].
+Proof. cbv zeta. eexists. split; [vm_compute; reflexivity|]. repeat split; discriminate. Qed.
